@@ -141,6 +141,36 @@ Fixpoint dechunk (fuel : nat) (s : str) (acc : str) : option (str * list (str * 
 Definition rfc_no_body (meth : str) (code : N) : bool :=
   str_eqb meth (b "HEAD") || (code / 100 =? 1) || (code =? 204) || (code =? 304).
 
+(* message body length, RFC 7230 3.3.3; mk builds the message from body and trailers *)
+Definition client_body (v11 : bool) (meth : str) (code : N) (fields : list (str * str))
+           (mk : str -> list (str * str) -> obs) (rest1 : str) : option (obs * str) :=
+  if rfc_no_body meth code then Some (mk [] [], rest1)                       (* rule 1 *)
+  else if str_eqb meth (b "CONNECT") && (code / 100 =? 2) then Some (mk [] [], rest1)  (* rule 2 *)
+  else
+    match (if v11 then field_values (b "transfer-encoding") fields else []) with
+    | (_ :: _) as tes =>                                                       (* rule 3 *)
+        if final_chunked tes then
+          match dechunk (S (length rest1)) rest1 [] with
+          | Some (body, tr, rest2) => Some (mk body tr, rest2)
+          | None => None
+          end
+        else Some (mk rest1 [], [])
+    | [] =>
+        match field_values (b "content-length") fields with
+        | [] => Some (mk rest1 [], [])                                         (* rule 7: until close *)
+        | v :: vs =>                                                           (* rules 4, 5 *)
+            match parse_num 10 dec_digit v with
+            | None => None
+            | Some n =>
+                if forallb (str_eqb v) vs then
+                  let k := N.to_nat n in
+                  if (length rest1 <? k)%nat then None
+                  else Some (mk (firstn k rest1) [], skipn k rest1)
+                else None
+            end
+        end
+    end.
+
 Definition client_parse (v11 : bool) (meth : str) (s : str) : option (obs * str) :=
   match take_line s with
   | None => None
@@ -150,34 +180,7 @@ Definition client_parse (v11 : bool) (meth : str) (s : str) : option (obs * str)
   | Some (M, m, code, reason) =>
   match parse_fields (S (length rest0)) rest0 with
   | None => None
-  | Some (fields, rest1) =>
-      let mk := mkObs M m code reason fields in
-      if rfc_no_body meth code then Some (mk [] [], rest1)                       (* rule 1 *)
-      else if str_eqb meth (b "CONNECT") && (code / 100 =? 2) then Some (mk [] [], rest1)  (* rule 2 *)
-      else
-        match (if v11 then field_values (b "transfer-encoding") fields else []) with
-        | (_ :: _) as tes =>                                                       (* rule 3 *)
-            if final_chunked tes then
-              match dechunk (S (length rest1)) rest1 [] with
-              | Some (body, tr, rest2) => Some (mk body tr, rest2)
-              | None => None
-              end
-            else Some (mk rest1 [], [])
-        | [] =>
-            match field_values (b "content-length") fields with
-            | [] => Some (mk rest1 [], [])                                         (* rule 7: until close *)
-            | v :: vs =>                                                           (* rules 4, 5 *)
-                match parse_num 10 dec_digit v with
-                | None => None
-                | Some n =>
-                    if forallb (str_eqb v) vs then
-                      let k := N.to_nat n in
-                      if (length rest1 <? k)%nat then None
-                      else Some (mk (firstn k rest1) [], skipn k rest1)
-                    else None
-                end
-            end
-        end
+  | Some (fields, rest1) => client_body v11 meth code fields (mkObs M m code reason fields) rest1
   end end end.
 
 (* a persistent connection: the k-th response answers the k-th request *)
